@@ -43,9 +43,10 @@ extern void    user_bcopy      (char *, char *, int);
 /* Bytes skipped at the start of a user-supplied work[], so that the arrays
    placed in it, which may hold 64-bit integers, start at an 8-byte boundary. */
 #define WorkSkip(work)       ( (int_t) ((char*)DoubleAlign(work) - (char*)(work)) )
-/* In a user-supplied work[] the index arrays follow the float arrays: even
-   lengths of the latter keep 64-bit indices at 8-byte boundaries. */
-#define EvenLen(len)         ( Glu->MemModel == USER ? (len) + ((len) & 1) : (len) )
+/* In a user-supplied work[] the index arrays follow the float arrays: growing
+   the latter by an even number of entries keeps 64-bit indices at the 8-byte
+   boundaries they were given initially. */
+#define EvenGrowth(len, old) ( (len) + (((len) - (old)) & 1) )
 #define TempSpace(m, w)      ( (2*w + 4 + NO_MARKER) * m * sizeof(int) + \
 			      (w + 1) * m * sizeof(float) )
 #define Reduce(alpha)        ((alpha + 1) / 2)  /* i.e. (alpha-1)/2 + 1 */
@@ -581,7 +582,6 @@ void
     
     if ( type == LSUB || type == USUB ) lword = sizeof(int_t);
     else lword = sizeof(float);
-    if ( lword < sizeof(int_t) ) new_len = EvenLen(new_len);
 
     if ( Glu->MemModel == SYSTEM ) {
 	new_mem = (void *) SUPERLU_MALLOC((size_t)new_len * lword);
@@ -612,7 +612,7 @@ void
 	
 	    new_mem = suser_malloc(new_len * lword, HEAD, Glu);
 	    if ( NotDoubleAlign(new_mem) &&
-		(type == LUSUP || type == UCOL) ) {
+		(type == LUSUP || type == UCOL || sizeof(int_t) > sizeof(float)) ) {
 		old_mem = new_mem;
 		new_mem = (void *)DoubleAlign(new_mem);
 		extra = (char*)new_mem - (char*)old_mem;
@@ -628,6 +628,7 @@ void
 	} else { /* CASE: num_expansions != 0 */
 	
 	    tries = 0;
+	    if ( lword < sizeof(int_t) ) new_len = EvenGrowth(new_len, *prev_len);
 	    extra = (new_len - *prev_len) * lword;
 	    /* USUB grows to the same number of entries right after UCOL. */
 	    if ( type == UCOL ) extra_usub = (new_len - *prev_len) * sizeof(int_t);
@@ -638,7 +639,7 @@ void
 		    if ( ++tries > 10 ) return (NULL);
 		    alpha = Reduce(alpha);
 		    new_len = alpha * *prev_len;
-		    if ( lword < sizeof(int_t) ) new_len = EvenLen(new_len);
+		    if ( lword < sizeof(int_t) ) new_len = EvenGrowth(new_len, *prev_len);
 		    extra = (new_len - *prev_len) * lword;	    
 		    if ( type == UCOL )
 			extra_usub = (new_len - *prev_len) * sizeof(int_t);
